@@ -390,6 +390,132 @@ def check_c11(tier, seed):
     return v.finish("exploration", cov, ["paths not in those histories are not covered", "heap blocks come from calloc (zeroed) in every back end; malloc'ed blocks would be painted by the allocator seam"])
 
 
+def c12_configs(tier):
+    """(name, LibBuild kwargs).  SIMD sets: all, 128 only, none, none + byte-order-neutral scalar path."""
+    simd = {"s2": ([], 2), "s1": (["-DSKINNY_C_VERIF_VEC256_MATH=0"], 1),
+            "s0": (["-DSKINNY_C_VERIF_VEC128_MATH=0", "-DSKINNY_C_VERIF_VEC256_MATH=0"], 0),
+            "s0be": (["-DSKINNY_C_VERIF_VEC128_MATH=0", "-DSKINNY_C_VERIF_VEC256_MATH=0", "-DSKINNY_C_VERIF_LITTLE_ENDIAN=0"], 0)}
+    out = []
+
+    def add(w, u, sd, cc, opt):
+        defs = list(simd[sd][0])
+        if w == 32:
+            defs.append("-DSKINNY_C_VERIF_64BIT=0")
+        if u == 0:
+            defs.append("-DSKINNY_C_VERIF_UNALIGNED=0")
+        name = "w%d-u%d-%s-%s-O%s" % (w, u, sd, cc, opt)
+        out.append((name, dict(cc=cc, common="-O%s -Wall -Wextra" % opt, defs=defs, maxbe=simd[sd][1])))
+    if tier == "thorough":
+        for w in (64, 32):
+            for u in (1, 0):
+                for sd in ("s2", "s1", "s0", "s0be"):
+                    for cc in ("gcc", "clang"):
+                        for opt in "0123":
+                            add(w, u, sd, cc, opt)
+    else:
+        # covering subset: every switch value, and every (switch value, compiler) pair, occurs
+        for w, u, sd, cc, opt in [(64, 1, "s2", "gcc", "3"), (32, 1, "s2", "gcc", "3"), (64, 0, "s2", "gcc", "2"), (32, 0, "s1", "gcc", "1"),
+                                  (64, 1, "s0", "gcc", "0"), (32, 0, "s0be", "gcc", "3"), (64, 1, "s0be", "gcc", "2"),
+                                  (64, 1, "s2", "clang", "3"), (32, 0, "s2", "clang", "2"), (64, 0, "s1", "clang", "0"),
+                                  (32, 1, "s0", "clang", "1"), (64, 0, "s0be", "clang", "3"), (32, 1, "s0be", "clang", "0")]:
+            add(w, u, sd, cc, opt)
+    return out
+
+
+def check_c12(tier, seed):
+    v = Verdict("C12", tier, seed)
+    st = new_stage()
+    merged = Merged()
+    cfgs = c12_configs(tier)
+    srcs = ["common.c", "pin.c", "families.c", "alloc.c", "obj.c", "mc.c", "h_cfg.c"]
+    host_max = 2   # the harness refuses a back end the host cannot execute
+
+    def one(name, kw):
+        lib = LibBuild(name=name, **kw).build(st, jobs=4)
+        binary = build_harness(st, lib, "cfg", srcs, wraps=MC_WRAPS, ref=False)
+        runs = []
+        for be in range(0, lib.maxbe + 1):
+            out = os.path.join(st, "cfg-%s-be%d.json" % (name, be))
+            try:
+                res = run_harness(binary, ["--sub", "be%d" % be, "--tier", tier, "--seed", str(seed), "--label", name, "--maxbe", str(lib.maxbe)], out, timeout=1800)
+            except EngineError as e:
+                if "not available in this build/host" in str(e):
+                    continue
+                raise
+            runs.append((name, be, res))
+        shutil_rm(lib.dir)
+        return runs
+    allruns = []
+    for chunk in run_parallel([lambda n=n, kw=kw: one(n, kw) for n, kw in cfgs], workers=4):
+        allruns += chunk
+    ref_name, ref_be, ref = allruns[0]
+    ncmp = 0
+    for name, be, res in allruns:
+        m = Merged(); m.add(res, None)
+        v.handle(m, None)
+        merged.evaluations += res.get("evaluations", 0)
+        for tag, val in res.get("out_sums", {}).items():
+            if tag not in ref.get("out_sums", {}):
+                continue
+            ncmp += 1
+            if ref["out_sums"][tag] != val:
+                v.new.append({"sig": "C12/configuration-dependent-result/%s" % tag, "case": "", "label": name, "replay": None,
+                              "detail": "section '%s': configuration %s on back end %s computes digest %s, configuration %s on back end %s computes %s"
+                                        % (tag, name, vplib_be(be), val, ref_name, vplib_be(ref_be), ref["out_sums"][tag])})
+    for s_ in ref.get("samples", []):
+        merged.samples.append(s_)
+    cov = {"evaluations": merged.evaluations, "distinct_nontrivial": len(allruns),
+           "rule": "configurations = {64,32}-bit word paths x {unaligned fast paths, byte-wise} x {SIMD 128+256, 128 only, none, none + byte-order-neutral scalar path} x {gcc, clang} x {-O0..-O3} "
+                   "(thorough: all 128; quick: a 13-build covering subset in which every switch value and every (switch value, compiler) pair occurs), each built through the repository Makefile with the guarded "
+                   "platform-switch hook; in each build one deterministic battery (block families for all variants incl. tweakable and Mantis, CTR streams over 5 key configurations x 8 counters x 6 cut patterns "
+                   "with mid-stream re-key / tweak change, parallel ECB for every block count 0..25, key lengths 0..50) runs pinned to each back end the build contains; oracle: every section digest identical "
+                   "across all (configuration, back end) runs; distinct = number of (configuration, back end) runs compared",
+           "samples": merged.samples[:4] + [{"configurations": [n for n, kw in cfgs][:16]}], "runs": len(allruns), "configurations": len(cfgs), "digest_comparisons": ncmp,
+           "sections": sorted(ref.get("out_sums", {}).keys())}
+    return v.finish("exploration", cov, ["the reference (first) configuration is the shipped one, which C01-C07/C10 tie to the specification", "real big-endian or 32-bit hosts and NEON are out of reach on this host"])
+
+
+def vplib_be(be):
+    return ["gen", "v128", "v256"][be]
+
+
+def shutil_rm(path):
+    import shutil
+    shutil.rmtree(path, ignore_errors=True)
+
+
+def check_c13(tier, seed):
+    v = Verdict("C13", tier, seed)
+    st = new_stage()
+    merged = Merged()
+    libs = run_parallel([lambda: mkbuild("shipped").build(st, jobs=5),
+                         lambda: mkbuild("cpumodel", defs=["-DSKINNY_C_VERIF_CPUID"]).build(st, jobs=5),
+                         lambda: mkbuild("cpumodel-no256", defs=["-DSKINNY_C_VERIF_CPUID", "-DSKINNY_C_VERIF_VEC256_MATH=0"], maxbe=1).build(st, jobs=5),
+                         lambda: mkbuild("no256", defs=["-DSKINNY_C_VERIF_VEC256_MATH=0"], maxbe=1).build(st, jobs=5)], workers=4)
+    srcs = ["common.c", "pin.c", "families.c", "alloc.c", "obj.c", "h_cpu.c", "tramp.S"]
+    per = {}
+    for lib in libs:
+        model = lib.name.startswith("cpumodel")
+        binary = build_harness(st, lib, "cpu", srcs, wraps=WRAP_ALLOC, ref=False, defs=["-DMODEL"] if model else [])
+        args = ["--tier", tier, "--seed", str(seed), "--label", lib.name, "--maxbe", str(lib.maxbe)]
+        spec = {"sources": srcs, "special": "c13", "build": lib.name, "args": args}
+        m = Merged()
+        for res in run_sharded(binary, args, st, "cpu-" + lib.name, nshards=8 if model else 1):
+            m.add(res, spec); merged.add(res, spec)
+        v.handle(m, None)
+        per[lib.name] = m.evaluations
+    states = sum(val for k, val in merged.notes.items() if k.startswith("environment_states"))
+    cov = {"states": int(states), "transitions": merged.evaluations, "traces_validated_against_impl": merged.evaluations,
+           "evaluations": merged.evaluations, "distinct_nontrivial": merged.distinct,
+           "rule": "(b) environment states = max basic leaf {1,2,4,6,7,0xB,0xD,0x1F} x out-of-range leaf behaviour {zeros, highest-basic-leaf data} x SSE2 x OSXSAVE x AVX x XCR0 {1,3,7,0xE7} x AVX2 x "
+                   "leaf-7 sub-leaf-1 contents {0, ones} x all other feature bits {0, ones}, consistent CPUs only, answered through the guarded CPUID/XGETBV seam; every state x each of the six init "
+                   "functions executed twice (different caller registers and stack paint) on builds with and without the 256-bit back end compiled in; oracle: selected vtable / function table and "
+                   "parallel_size == widest back end compiled in and usable in that state. (a) the real CPU: six inits x 14 caller-register/stack patterns x 3 repetitions through an assembly trampoline, "
+                   "oracle = the compiler's CPU detection; transitions = init calls judged",
+           "samples": merged.samples, "notes": merged.notes, "calls_per_build": per, "builds": [l.describe() for l in libs]}
+    return v.finish("model_checking", cov, ["x86 only (NEON has no run-time probe)", "model states that would select a back end the host cannot execute are skipped and counted"], exhaustive=True)
+
+
 def check_c15(tier, seed):
     v = Verdict("C15", tier, seed)
     st = new_stage()
@@ -642,6 +768,8 @@ REGISTRY = {
     "C09": check_c09,
     "C10": check_c10,
     "C11": check_c11,
+    "C12": check_c12,
+    "C13": check_c13,
     "C14": check_c14,
     "C15": check_c15,
     "C16": check_c16,
